@@ -13,7 +13,7 @@ RULE = (
     "cases are input strings: (a) every string up to length L over the alphabet "
     "'a : / ? # @ \\ % [ ] . SP 1' bare and behind 'http://' (L=5 quick, 6 thorough; distinct by construction), "
     "(b) Hypothesis grammar-built URLs with hostile components plus one random splice, (c) Hypothesis unicode text "
-    "incl. lone surrogates, (e) 26 repetition shapes for the running-time clause. Non-trivial = the string holds "
+    "incl. lone surrogates, (e) 37 repetition shapes for the running-time clause. Non-trivial = the string holds "
     ">= 2 different delimiter characters of ':/?#@\\[]', or a '%', or a non-ASCII character. Distinctness by "
     "64-bit hash of the string for (b)/(c)."
 )
@@ -247,33 +247,75 @@ SHAPES = {
     "frag-hash": lambda n: "http://a/#" + "#" * n,
     "spaces": lambda n: "http://a/" + " " * n,
     "nonascii-path": lambda n: "http://a/" + "\u20ac" * n,
+    # long host runs followed by something that invalidates host[:port] (backtracking bait)
+    "host-badport": lambda n: "http://" + "a" * n + ":x",
+    "host-longport": lambda n: "http://" + "a" * n + ":123456",
+    "host-bracket": lambda n: "http://" + "a" * n + "]",
+    "host-openbracket": lambda n: "http://" + "a" * n + "[",
+    "host-2colons": lambda n: "http://" + "a" * n + ":1:2",
+    "host-badpct": lambda n: "http://" + "a" * n + "%zz",
+    "host-pct-run-bad": lambda n: "http://" + "%41" * n + "%",
+    "host-dots-bad": lambda n: "http://" + "a." * n + ":x",
+    "userinfo-run-badport": lambda n: "http://" + "u" * n + "@h:x",
+    "v4ish-run": lambda n: "http://" + "1." * n + "x:y",
+    "noscheme-host-bad": lambda n: "a" * n + "]",
 }
+TIME_GUARD_S = 30.0
+
+
+class _TimeGuard(Exception):
+    pass
 
 
 def check_timing(shape: str, sizes=(1000, 10000, 100000)):
+    import signal
+
     from urllib3.exceptions import LocationParseError
     from urllib3.util.url import parse_url
 
     fn = SHAPES[shape]
     times = []
     fails = []
-    for n in sizes:
-        s = fn(n)
-        best = None
-        for _ in range(3):
-            t = time.process_time()
-            try:
-                parse_url(s)
-            except LocationParseError:
-                pass
-            except BaseException as e:  # noqa: BLE001
-                fails.append(Failure("totality", {"exc": type(e).__name__}, f"shape {shape} n={n}: {type(e).__name__}: {e}"))
-                break
-            dt = time.process_time() - t
-            best = dt if best is None else min(best, dt)
-            if dt > 20:
-                break
-        times.append(best or 0.0)
+
+    def _alarm(signum, frame):
+        raise _TimeGuard()
+
+    can_alarm = hasattr(signal, "setitimer")
+    try:
+        old_handler = signal.signal(signal.SIGALRM, _alarm) if can_alarm else None
+    except ValueError:  # not the main thread
+        can_alarm = False
+        old_handler = None
+    try:
+        for n in sizes:
+            s = fn(n)
+            best = None
+            for _ in range(3):
+                t = time.process_time()
+                try:
+                    if can_alarm:
+                        signal.setitimer(signal.ITIMER_REAL, TIME_GUARD_S)
+                    try:
+                        parse_url(s)
+                    finally:
+                        if can_alarm:
+                            signal.setitimer(signal.ITIMER_REAL, 0)
+                except LocationParseError:
+                    pass
+                except _TimeGuard:
+                    fails.append(Failure("linear-time", {"shape": shape}, f"shape {shape}: parse_url did not return within {TIME_GUARD_S}s at n={n} (times so far {[round(x, 4) for x in times]})"))
+                    return fails, times + [TIME_GUARD_S]
+                except BaseException as e:  # noqa: BLE001
+                    fails.append(Failure("totality", {"exc": type(e).__name__}, f"shape {shape} n={n}: {type(e).__name__}: {e}"))
+                    break
+                dt = time.process_time() - t
+                best = dt if best is None else min(best, dt)
+                if dt > 5:
+                    break
+            times.append(best or 0.0)
+    finally:
+        if can_alarm and old_handler is not None:
+            signal.signal(signal.SIGALRM, old_handler)
     if len(times) == 3 and times[2] > 0.5 and times[2] / max(times[1], 1e-6) > 25:
         fails.append(
             Failure("linear-time", {"shape": shape}, f"shape {shape}: cpu seconds at n={list(sizes)}: {[round(t, 4) for t in times]} (super-linear)")
